@@ -297,4 +297,8 @@ def run(F, rep):
     import recursion as _recw
     _recw.rule_walkers(F, rep, 'C13.W1', ['listComponentIdsAndItems', 'doClearComponentIds', 'doSetComponentTreeTypeIds', 'doUpdateComponentHash', 'listComponentIds'], 5, 'indexing, assigning and clearing ids')
 
+    # ------------------------------------------------------------------ loop-carried locals
+    from engines import rule_loop_state
+    rule_loop_state(F, rep, 'C13.S1', lambda g: g.file.endswith('/annotator.cpp'), 'annotator.cpp')
+
 
